@@ -147,17 +147,45 @@ fn expected_len(op: &Op) -> Option<usize> {
 }
 
 fn in_domain(ops: &[Op]) -> bool {
-    // DVI grammar: post_post (with its 223 padding) is the last command of a file; anything after it
-    // is not "a sequence of DVI operations". Strings are limited to 255 bytes by the format.
-    for (i, op) in ops.iter().enumerate() {
+    // Strings are limited to 255 bytes by the format's length byte.
+    for op in ops.iter() {
         match op {
-            Op::EndPostamble { .. } if i + 1 != ops.len() => return false,
             Op::DefineFont { area, name, .. } if area.len() > 255 || name.len() > 255 => return false,
             Op::Preamble { comment, .. } if comment.len() > 255 => return false,
             _ => {}
         }
     }
     true
+}
+
+/// Known finding F223: the padding bytes after post_post have the value 223, which is also the opcode
+/// fnt_num_52. `EndPostamble{n}` directly followed by `EnableFont(52)` ops therefore reads back as
+/// `EndPostamble{n+k}`. Returns the adjusted expectation if the case is in that class.
+fn f223_adjusted(ops: &[Op]) -> Option<Vec<Op>> {
+    let mut out: Vec<Op> = vec![];
+    let mut hit = false;
+    let mut i = 0;
+    while i < ops.len() {
+        if let Op::EndPostamble { dvi_format, postamble, num_223_bytes } = &ops[i] {
+            let mut k = 0;
+            while matches!(ops.get(i + 1 + k), Some(Op::EnableFont(52))) {
+                k += 1;
+            }
+            if k > 0 {
+                hit = true;
+            }
+            out.push(Op::EndPostamble { dvi_format: *dvi_format, postamble: *postamble, num_223_bytes: num_223_bytes + k });
+            i += 1 + k;
+        } else {
+            out.push(ops[i].clone());
+            i += 1;
+        }
+    }
+    if hit {
+        Some(out)
+    } else {
+        None
+    }
 }
 
 fn roundtrip(ops: &[Op]) -> Result<(usize, Vec<Op>, Result<(), dvi::InvalidDviData>), vcore::Panic> {
@@ -184,6 +212,10 @@ fn check_roundtrip(idx: u64, ops: &[Op], acc: &mut Acc, sel: &dyn Fn() -> Value)
         Err(p) => acc.fail(idx, case(), "serialize/deserialize return", p.describe(), "panic"),
         Ok((n, back, res)) => {
             if res.is_err() || back != ops {
+                if res.is_ok() && f223_adjusted(ops).as_deref() == Some(back.as_slice()) {
+                    acc.known("F223", idx, case);
+                    return;
+                }
                 acc.fail(idx, case(), format!("{ops:?}"), format!("{back:?} result={res:?}"), "deserialize(serialize(ops)) != ops");
                 return;
             }
@@ -311,7 +343,11 @@ fn check_bytes(idx: u64, bytes: &[u8], acc: &mut Acc) {
                 Err(p) => acc.fail(idx, case(), "no panic", p.describe(), "re-serialising parsed ops panicked"),
                 Ok((_, back, r2)) => {
                     if r2.is_err() || back != ops {
-                        acc.fail(idx, case(), format!("{ops:?}"), format!("{back:?} {r2:?}"), "parse(serialize(parse(bytes))) != parse(bytes)");
+                        if r2.is_ok() && f223_adjusted(&ops).as_deref() == Some(back.as_slice()) {
+                            acc.known("F223", idx, case);
+                        } else {
+                            acc.fail(idx, case(), format!("{ops:?}"), format!("{back:?} {r2:?}"), "parse(serialize(parse(bytes))) != parse(bytes)");
+                        }
                     }
                 }
             }
@@ -498,7 +534,7 @@ fn check_varremover(idx: u64, ops: &[Op], acc: &mut Acc, want_fp: bool) -> Optio
 
 fn main() {
     let mut ctx = Ctx::new("C16", Level::ModelChecking);
-    ctx.assume("DVI grammar: post_post is the last command; strings are at most 255 bytes (the format's length byte)");
+    ctx.assume("strings are at most 255 bytes (the format's length byte; the property says so)");
     ctx.assume("operand sums stay inside i32 (alphabet steps are small): overflow of the position registers is outside the alphabet");
     ctx.assume("Pop on an empty stack is ignored (DVI leaves it undefined; both the crate and the tracker ignore it)");
     let menu = full_menu();
